@@ -178,5 +178,4 @@ theorem opt_core (touched : Int → Node → Bool) (cands : List Int) (st : OS) 
     have := hf.oinv.avoid nd hnd a (by rw [hl]; simp)
     exact ⟨a, by simp, this⟩
 
-#print axioms opt_core
 end P.Opt
